@@ -406,6 +406,40 @@ func runC11(w *World, tier string) (bool, interface{}) {
 			return false, "the deviating response reached the board before the dealer's deals were all there: nodes still collecting deals cannot act on it"
 		}
 	}
+	{
+		// same premise for every participant (DESIGN 11, "a node that is behind by a step"): with
+		// the board going away in the middle of an *honest* submission of deals and the file
+		// submitted again, that participant's ordinary response can stand on the board in front of
+		// a deal some node still waits for; that node refuses the response as out of step and
+		// waits for it for good - the round stalls in the responses step whatever the dealer did.
+		// Such a run says nothing about the deviation, unless a node got as far as signing-ready.
+		firstResp, lastDeal, anyReady := -1, -1, false
+		for _, m := range w.Board.Msgs {
+			if m.DkgRoundID != round || w.Board.Injected[m.Offset] != nil {
+				continue
+			}
+			if m.Event == string(dpf.EventDKGResponseConfirmationReceived) && firstResp < 0 {
+				firstResp = int(m.Offset)
+			}
+			if m.Event == string(dpf.EventDKGDealConfirmationReceived) {
+				lastDeal = int(m.Offset)
+			}
+		}
+		stalledInResponses := false
+		for _, i := range members {
+			st := w.Nodes[i].RoundState(round)
+			if st == StIdle {
+				anyReady = true
+			}
+			if st == string(dpf.StateDkgResponsesAwaitConfirmations) || st == string(dpf.StateDkgDealsAwaitConfirmations) {
+				stalledInResponses = true
+			}
+		}
+		if firstResp >= 0 && firstResp < lastDeal && stalledInResponses && !anyReady && !c.AnyCancelled(round, members) {
+			w.Stats.Probe("ordinary-response-posted-before-a-deal-some-node-still-waited-for")
+			return false, "a response reached the board before the last deal (submission of deals cut by a board outage): nodes still collecting deals refused it; the stall is not the deviation's"
+		}
+	}
 	for _, i := range members {
 		if !IsCancelled(w.Nodes[i].RoundState(round)) {
 			w.Fail("C11", "round-not-cancelled/"+sig, fmt.Sprintf("dealer %d deviated (%s, victim %d) but node %d is in %s (all: %v); victim error results: %v", D, kind, V, i, w.Nodes[i].RoundState(round), sts, sortedKeys(victimErrors)))
